@@ -336,6 +336,21 @@ def r5_slots(ctx, F, pid="C07"):
     for nm, (b, w, v) in sorted(writers.items()):
         ctx.fn_seen(b)
         ctx.check(rule, "writer/" + nm, nm in allowed, "Vfs::%s writes a mount table; only %s may" % (nm, sorted(allowed)), loc=b.loc())
+    # a table is changed by clone - modify - store: every modification of the private copy is published (no path from the
+    # write to a normal return avoids `self.<table>.store(..)`), otherwise the change is silently lost
+    for nm, (b, w, v) in sorted(writers.items()):
+        for tbl in sorted(set(x[0] for x in w)):
+            sts = [c for c in live_calls(b) if c.name == "store" and "arc_swap" in (c.fn or "") and vf.render(v.call_args(c)[0], b, short=True) == "self.%s" % tbl]
+            lost = []
+            for x in [y for y in w if y[0] == tbl]:
+                region = b.reach_set(x[3].bb, avoid=set(c.bb for c in sts))
+                for r_ in b.return_blocks():
+                    if r_ in region:
+                        val = vf.render(v.local_at(0, r_, len(b.stmts(r_))), b, short=True)
+                        if "Err(" not in val and "from_residual" not in val:
+                            lost.append(x[1])
+            ctx.check(rule, "publishes/%s/%s" % (nm, tbl), bool(sts) and not lost,
+                      "Vfs::%s changes its copy of %s (index %s) and can return without storing it back" % (nm, tbl, sorted(set(lost)) or "-"), loc=b.loc())
     if pid == "C07":
         # superblocks[k] = Some(fs) is committed before the mount point that refers to it becomes visible
         b = F.method(VFS, "insert_mount_locked")
